@@ -29,6 +29,10 @@ type c02Case struct {
 	Hist    string  `json:"hist"`   // plain | expired1 | expired2
 	Hook    float64 `json:"hook"`
 	Reps    int     `json:"reps"`
+	// Cancel: the context the instance was created and started with is cancelled while a task request is
+	// unanswered ("rest" = right after start, "mid" = after the first of the pending requests was answered);
+	// the instance is not complete and must never say so
+	Cancel string `json:"cancel,omitempty"`
 }
 
 func c02Graph(c *c02Case) *gen.Graph {
@@ -102,7 +106,115 @@ func c02Cases(tier string, seed uint64) []fw.Case {
 			}
 		}
 	}
+	// the instance's own context cancelled while requests are unanswered
+	for starts := 1; starts <= 2; starts++ {
+		for _, shape := range []string{"ind", "join", "forkend"} {
+			if shape == "join" && starts == 1 {
+				continue
+			}
+			for _, cancel := range []string{"rest", "mid"} {
+				for _, h := range []string{"plain", "expired1"} {
+					for _, hook := range []float64{0, 0.5} {
+						c := c02Case{Starts: starts, Shape: shape, Mode: "all", Waiters: 2, Attach: "before", Hist: h, Hook: hook, Reps: 1, Cancel: cancel}
+						if tier == "thorough" && hook > 0 {
+							c.Reps = 10
+						}
+						c.Name = fmt.Sprintf("cancelled-S%d-%s-%s-%s-h%v", starts, shape, cancel, h, hook)
+						cs = append(cs, fw.MkCase("cancelled", &c))
+					}
+				}
+			}
+		}
+	}
 	return fw.Number(cs)
+}
+
+// c02Cancelled: the context of the instance is cancelled while at least one task request is unanswered. The
+// tokens are abandoned, not consumed: no waiter - attached before, after an expired wait, or after the
+// cancellation - may return true and no cease-flow trace may appear.
+func c02Cancelled(c *c02Case, env *fw.Env, v *fw.V) {
+	g := c02Graph(c)
+	defs, _, err := step.Parse(g)
+	if err != nil {
+		v.Inconclusive("parse", "%v", err)
+		return
+	}
+	if c.Hook > 0 {
+		perturb.Configure(c.Hook, 200)
+	} else {
+		perturb.Off()
+	}
+	in, err := drive.New(env.Label, defs, drive.Opts{ExtraSubs: 1})
+	if err != nil {
+		v.Violate("new-process-error", "error", "%v", err)
+		return
+	}
+	defer in.Cancel()
+	cls := "cancelled-" + c.Cancel
+	quiet := func(what string) bool {
+		q := in.Quiesce(step.Watchdog)
+		v.Add("qpoints", 1)
+		if !q.Quiescent {
+			v.Inconclusive("watchdog", "no quiescent point %s: %v", what, quiesce.Summary(q.Gs))
+			return false
+		}
+		return true
+	}
+	if c.Hist == "expired1" {
+		ectx, ecancel := context.WithCancel(context.Background())
+		ecancel()
+		in.Wait(ectx)
+	}
+	var ws []*drive.Waiter
+	for i := 0; i < c.Waiters; i++ {
+		ws = append(ws, in.Wait(context.Background()))
+	}
+	if err := in.Start(); err != nil {
+		v.Violate("start-error", "error", "%v", err)
+		return
+	}
+	if !quiet("after start") {
+		return
+	}
+	if c.Cancel == "mid" {
+		if p := in.Pending(); len(p) > 1 {
+			in.Answer(p[0], bpmn.DoWithResults(nil))
+			if !quiet("after the first answer") {
+				return
+			}
+		}
+	}
+	unanswered := len(in.Pending())
+	if unanswered == 0 {
+		v.Inconclusive("shape", "no unanswered request at the cancellation point")
+		return
+	}
+	in.Note("cancel.call", "")
+	in.Cancel()
+	in.Note("cancel.return", "")
+	if !quiet("after cancellation") {
+		return
+	}
+	ws = append(ws, in.Wait(context.Background())) // a wait issued after the cancellation
+	if !quiet("after a wait issued after the cancellation") {
+		return
+	}
+	for i, w := range ws {
+		ret, res, _ := in.WaiterState(w)
+		if ret && res {
+			v.Violate("complete-after-cancel", cls, "the instance's context was cancelled while %d task request(s) were unanswered, yet waiter %d of %d (the last one was attached after the cancellation) returned true", unanswered, i, len(ws))
+			v.Log = in.Tail(30)
+			return
+		}
+		if !ret {
+			v.Violate("waiter-blocked", cls, "waiter %d still blocked at the quiescent point after the instance's context was cancelled", i)
+			return
+		}
+	}
+	if n := in.Count("CeaseFlow", ""); n != 0 {
+		v.Violate("cease-after-cancel", cls, "%d cease-flow trace(s) although the instance was cancelled while %d task request(s) were unanswered", n, unanswered)
+		v.Log = in.Tail(30)
+	}
 }
 
 type c02Run struct {
@@ -338,13 +450,19 @@ func init() {
 				return v
 			}
 			for i := 0; i < cc.Reps && !v.Violated(); i++ {
-				fw.Rep(env, i, func(env *fw.Env) { c02Run1(&cc, env, v) })
+				fw.Rep(env, i, func(env *fw.Env) {
+					if cc.Cancel != "" {
+						c02Cancelled(&cc, env, v)
+					} else {
+						c02Run1(&cc, env, v)
+					}
+				})
 				v.Add("runs", 1)
 			}
 			v.Nontrivial = true
 			return v
 		},
-		Rule:       "full grid: 1..3 start events x {independent chains, chains merging in a parallel join, one chain without task} x {StartAll, StartWith one by one with the earlier chain run to its end} x {1,2,4 concurrent waiters} x {attached before start, mid-run, after completion} x {plain, one / two already-expired waits first} x start-up hook delay probability {0,0.5,1}; waiters and cease-flow trace checked against the reference at every quiescent point; every cell is non-trivial (has waiters and >=1 quiescent comparison); distinct = descriptor hash",
+		Rule:       "full grid: 1..3 start events x {independent chains, chains merging in a parallel join, one chain without task} x {StartAll, StartWith one by one with the earlier chain run to its end} x {1,2,4 concurrent waiters} x {attached before start, mid-run, after completion} x {plain, one / two already-expired waits first} x start-up hook delay probability {0,0.5,1}; waiters and cease-flow trace checked against the reference at every quiescent point; cancelled instances (the instance's own context cancelled while task requests are unanswered, at rest or mid-run, with waiters attached before, after an expired wait and after the cancellation): no waiter may return true, none stays blocked, no cease-flow trace; every cell is non-trivial (has waiters and >=1 quiescent comparison); distinct = descriptor hash",
 		Exhaustive: func(string) bool { return true },
 		Assumptions: []string{"'within bounded time' is restated as 'by the next quiescent point'", "context given to WithContext and StartAll/StartWith is the same"},
 	})
